@@ -21,7 +21,7 @@ import (
 type target struct {
 	name     string
 	isFloat  bool
-	bits     int // float: 32/64
+	bits     int      // float: 32/64
 	lo, hi   *big.Int // real range of the Go type on this platform
 	mlo, mhi *big.Int // range in which the conversion must succeed (int/uint/uintptr: portable 32-bit range)
 	call     func(m interface{}) (interface{}, error)
